@@ -4329,9 +4329,13 @@ func isNilChild(child int) func(n *node) {
 	}
 }
 
-func isNotNil(n *node) {
+// isNotNilChild returns the generator comparing the operand child to nil, as in x != nil (0) or nil != x (1).
+func isNotNilChild(child int) func(n *node) {
+	return func(n *node) { isNotNil(n, n.child[child]) }
+}
+
+func isNotNil(n, c0 *node) {
 	var value func(*frame) reflect.Value
-	c0 := n.child[0]
 	value = genValue(c0)
 	typ := n.typ.concrete().TypeOf()
 	isInterface := n.typ.TypeOf().Kind() == reflect.Interface
